@@ -9,7 +9,7 @@
      ...expand_secondfiltering                                   second_filter: interprets the stage list of Gen/Pipeline.v
      ...Generate                                                 generate_file: interprets the phase list of Gen/Pipeline.v
    Not modelled (a template that reaches them makes the model answer None = outside the modelled domain):
-     the transition-table printers behind the <<<TTT_*>>> single tags, and the signature / member / documentation /
+     the transition-table printers behind the <<<TTT_*>>> single tags other than the two boost::sml ones, and the signature / member / documentation /
      attribute / payload / PyAttr / MSGID tags inside per-element blocks; EXTENDS / EXCLUDE and multi-line
      replacement values in the first filtering.  No proofs in this file. *)
 From Coq Require Import String Ascii List Bool Arith ZArith.
@@ -38,6 +38,7 @@ Record smodel := {
   sm_actionsigs : list (string * (string * string));
   sm_tps : tps_t;
   sm_first : string;
+  sm_rows : list (list string);     (* smmodel.transition_table as given *)
   if_structs : list string; if_protos : list string; if_msgs : list string     (* of the events interface *)
 }.
 
@@ -74,6 +75,9 @@ Definition tps_step (acc : option tps_t) (r : row) : option tps_t :=
       else Some t1
   end.
 
+(* a row as its five columns (col: a missing column reads as '') *)
+Definition norm_row (r : row) : row := [r_state r; r_event r; r_next r; r_action r; r_guard r].
+
 Definition tt_states (tt : list row) : list string :=
   fold_left (fun acc r => let a1 := if present (r_state r) then add_new (r_state r) acc else acc in
                           if present (r_next r) then add_new (r_next r) a1 else a1) tt [].
@@ -102,7 +106,7 @@ Definition tt_model (tt : list row) (structs protos msgs : list string) : option
               sm_events := fold_left (fun acc s => add_new s acc) structs (tt_collect r_event tt);
               sm_actions := tt_collect r_action tt; sm_guards := tt_collect r_guard tt;
               sm_actionsigs := tt_actionsigs tt; sm_tps := tps_close (tt_states tt) tps;
-              sm_first := match tt with [] => "NO TT PRESENT!" | r :: _ => r_state r end;
+              sm_first := match tt with [] => "NO TT PRESENT!" | r :: _ => r_state r end; sm_rows := map norm_row tt;
               if_structs := structs; if_protos := protos; if_msgs := msgs |}
   end.
 
@@ -287,7 +291,73 @@ Definition inner_of (m : smodel) (inner coll : string)
     else None
   else None.
 
+(* ---------------------------------------------------------------- smgen.innerexpand_sml (the boost::sml table printer
+   behind <<<TTT_BOOST_SML>>> / <<<TTT_BOOST_SML_ENTRY_EXIT>>>), string by string as it is appended to the output *)
+Fixpoint blanks (n : nat) : string := match n with O => EmptyString | S k => String SP (blanks k) end.
+(* cgen.even_space *)
+Definition even_space (a : string) (n : nat) : string := (a ++ blanks (n - String.length a))%string.
+Definition rstrip_ws (s : string) : string := rstrip_by is_ws s.
+(* the maxlen* attributes of CTransitionTableModel *)
+Definition maxlen (f : row -> string) (tt : list row) : nat :=
+  fold_left (fun acc r => if present (f r) then (if Nat.ltb acc (String.length (f r)) then String.length (f r) else acc) else acc) tt 0.
+
+Definition tt_replace_none (v : string) : string := if present v then v else "msmf::none".
+Definition lite_guard_none (v : string) : string :=
+  let t := replace_all "__" "" v in if present t then v else "gnone".
+Definition lite_action_none (v : string) : string :=
+  let t := replace_all "__" "" v in
+  if negb (present t) || contains "::none<" (lower t) then "none" else v.
+Definition lite_next_none (v src : string) : string :=
+  let t := replace_all "msmf::" "" (replace_all "__" "" v) in if present t then v else src.
+
+Definition sml_header (ws : string) (tt : list row) : string :=
+  (ws ++ "// " ++ even_space "Start" (maxlen r_state tt + 8) ++ even_space "+Event" (maxlen r_event tt + 10)
+      ++ even_space "[ Guard ]" (maxlen r_guard tt + 6) ++ even_space "/ Action" (maxlen r_action tt + 4) ++ even_space " = Next" 0 ++ nl_str)%string.
+
+Definition sml_row_text (ws : string) (tt : list row) (first : bool) (r : row) : string :=
+  ((if first then ws ++ " *" else ws ++ ", ")
+   ++ even_space ("state<" ++ tt_replace_none (r_state r) ++ ">") (maxlen r_state tt + 9) ++ "+"
+   ++ even_space ("event<" ++ tt_replace_none (r_event r) ++ ">") (maxlen r_event tt + 9) ++ " "
+   ++ even_space ("[" ++ lite_guard_none (camel_case_small (r_guard r)) ++ "]") (maxlen r_guard tt + 4) ++ " / "
+   ++ even_space (lite_action_none (camel_case_small (r_action r))) (maxlen r_action tt + 2)
+   ++ (if present (r_next r) then " = " ++ even_space ("state<" ++ lite_next_none (r_next r) (r_state r) ++ ">") 0 else ""))%string.
+
+Definition sml_hooks_text (ws s : string) : string * string :=
+  ((ws ++ ", state<" ++ s ++ "> + boost::sml::on_entry<_> / " ++ camel_case_small s ++ "OnEntry" ++ nl_str)%string,
+   (ws ++ ", state<" ++ s ++ "> + boost::sml::on_exit<_> / " ++ camel_case_small s ++ "OnExit")%string).
+
+(* the loop over the table: [pending] = the text in tt_out when the row is reached (the header before the first row),
+   [seen] = the keys of startStateHasEntryExit *)
+Fixpoint sml_rows_out (ws : string) (tt : list row) (ee first : bool) (pending : string) (seen : list string) (rows : list row)
+  : list string * list string :=
+  match rows with
+  | [] => ([], seen)
+  | r :: rest =>
+      let line := (rstrip_ws (pending ++ sml_row_text ws tt first r) ++ nl_str)%string in
+      let hook := ee && negb (existsb (String.eqb (r_state r)) seen) in
+      let seen' := if hook then seen ++ [r_state r] else seen in
+      let '(out, seen'') := sml_rows_out ws tt ee false EmptyString seen' rest in
+      (line :: (if hook then let '(a, b) := sml_hooks_text ws (r_state r) in [(rstrip_ws (a ++ b) ++ nl_str)%string] else []) ++ out, seen'')
+  end.
+
+(* the trailing loop: the hooks of the states that were never a start state *)
+Definition sml_tail_step (ws : string) (acc : list string * list string) (s : string) : list string * list string :=
+  if existsb (String.eqb s) (fst acc) then acc
+  else let '(a, b) := sml_hooks_text ws s in (fst acc ++ [s], snd acc ++ [(a ++ b ++ nl_str)%string]).
+
+Definition sml_print (states : list string) (tt : list row) (ee : bool) (ws : string) : list string :=
+  let '(out, seen) := sml_rows_out ws tt ee true (sml_header ws tt) [] tt in
+  out ++ (if ee then snd (fold_left (sml_tail_step ws) states (seen, [])) else []).
+
 Definition stage := (string * string * string * string * string)%type.
+
+(* the expansion function of a single-tag stage: the sml printers are modelled, the other table printers are not *)
+Definition single_of (m : smodel) (inner coll : string) : option (string -> list string) :=
+  if String.eqb inner "innerexpand_sml" then
+    if String.eqb coll "smmodel,True" then Some (sml_print (sm_states m) (sm_rows m) true)
+    else if String.eqb coll "smmodel,False" then Some (sml_print (sm_states m) (sm_rows m) false)
+    else None
+  else None.
 
 Definition apply_stage (m : smodel) (acc : option (list string)) (st : stage) : option (list string) :=
   match acc with
@@ -296,7 +366,10 @@ Definition apply_stage (m : smodel) (acc : option (list string)) (st : stage) : 
       let '(kind, b, e, inner, coll) := st in
       if String.eqb kind "Init" then Some (filterInitialState m ls)
       else if String.eqb kind "Single" then
-        if existsb (fun l => hasSpecificTag l b) ls then None else Some ls       (* table printers: not modelled *)
+        match single_of m inner coll with
+        | Some f => Some (single_expand b f ls)
+        | None => if existsb (fun l => hasSpecificTag l b) ls then None else Some ls       (* the other table printers: not modelled *)
+        end
       else if String.eqb kind "Pair" then
         match inner_of m inner coll with
         | Some f => pair_expand b e f ls
